@@ -26,7 +26,7 @@ LEVEL_NOTE = ("Order is decided in the bounded, restated form 'observed slope ov
               "and end positions stay inside the clip box; the metric is the start cell's, as the implementation documents. RK2 = midpoint rule.")
 RULE = ("cases: onestep (field x scheme x metric, 200 particles, 6 steps), order (field x scheme ladder), helper (analytical.get_velocityN ladder), e2e (ROMS files, linear field, scheme, "
         "dx != dy). Non-trivial: the field has non-zero second derivatives or time dependence so that the three schemes differ; distinct by (kind, field, scheme, metric).")
-MANDATORY = ["time_step_of_a_day_or_more", "e2e_first_release_after_steps_with_an_empty_state", "e2e_reversed_forcing_over_several_files", "e2e_forcing_over_several_files", "e2e_metric_varying_along_eta_on_off_diagonal_subgrid", "field_exactly_at_rest_at_a_step", "helper_sample_function_returning_shared_arrays", "time_step_of_odd_seconds", "e2e_reversed_time_dependent", "inactive_particles_among_the_active", "grid_corner_off_diagonal", "e2e_subgrid_off_diagonal", "onestep_EF", "onestep_RK2", "onestep_RK4", "time_dependent_field", "anisotropic_metric", "piecewise_metric", "order_EF", "order_RK2", "order_RK4",
+MANDATORY = ["e2e_change_between_frames_varying_in_space", "time_step_of_a_day_or_more", "e2e_first_release_after_steps_with_an_empty_state", "e2e_reversed_forcing_over_several_files", "e2e_forcing_over_several_files", "e2e_metric_varying_along_eta_on_off_diagonal_subgrid", "field_exactly_at_rest_at_a_step", "helper_sample_function_returning_shared_arrays", "time_step_of_odd_seconds", "e2e_reversed_time_dependent", "inactive_particles_among_the_active", "grid_corner_off_diagonal", "e2e_subgrid_off_diagonal", "onestep_EF", "onestep_RK2", "onestep_RK4", "time_dependent_field", "anisotropic_metric", "piecewise_metric", "order_EF", "order_RK2", "order_RK4",
              "helper_order_1", "helper_order_2", "helper_order_4", "e2e_runs", "velocity_requests_checked"]
 ASSUMPTIONS = ["per-step displacement below about one cell (Courant <= 0.9)", "diffusion off"]
 TIMEOUT = {"quick": 900, "thorough": 3000}
@@ -342,6 +342,11 @@ def _e2e(case, wd, V, sit, cnt, keys):
     if timedep:
         lin["ut"] = float(rng.uniform(-sp, sp) / span)
         lin["vt"] = float(rng.uniform(-sp, sp) / span)
+        if case["idx"] % 8 in (1, 3, 5):
+            # the change between two frames varies in space (still bilinear in x, y and linear in t: exactly representable)
+            for k_ in ("uxt", "uyt", "vxt", "vyt"):
+                lin[k_] = float(rng.uniform(-sp, sp) / 12 / span)
+            _bump(sit, "e2e_change_between_frames_varying_in_space")
     # frames: irregular spacing in model steps, the first at or before start
     gaps = [int(g) for g in rng.choice([1, 2, 3, 5], size=6)]
     offs = [-int(rng.integers(0, 3)) * dt]
